@@ -281,6 +281,31 @@ def vmdk_descriptor(ctype='monolithicSparse', sectors=2048, extra_lines=(),
     return ('\n'.join(lines) + '\n').encode('ascii')
 
 
+def vmdk_descriptor_exact(total, ctype='monolithicSparse', sectors=2048, last='ctype'):
+    """A descriptor of exactly `total` bytes without a single NUL (it fills its sectors):
+    last='ctype'   the createType line is the last line and has no newline,
+    last='nl'      ordinary order, the last byte is a newline,
+    last='comment' ordinary order, the last line is a comment without newline."""
+    if last == 'ctype':
+        body = vmdk_descriptor(ctype, sectors, ctype_line='# (type at the end)')
+        tail = ('createType="%s"' % ctype).encode('ascii')
+    elif last == 'nl':
+        body, tail = vmdk_descriptor(ctype, sectors), b'# end\n'
+    else:
+        body, tail = vmdk_descriptor(ctype, sectors), b'# c'
+    need = total - len(body) - len(tail)
+    if need < 0:
+        raise ValueError('descriptor does not fit %d bytes' % total)
+    pad = b''
+    while need > 0:
+        k = min(need, 61)
+        pad += b'#' * (k - 1) + b'\n'
+        need -= k
+    out = body + pad + tail
+    assert len(out) == total and b'\x00' not in out
+    return out
+
+
 def vmdk_header(capacity_sectors=2048, version=1, desc_sec=1, desc_num=20,
                 gd_offset=None, flags=3, sig=b'KDMV', compressed=False):
     h = bytearray(512)
